@@ -25,7 +25,8 @@ theorem fact_optionCodes :
     Gen.ocDNS = some V6.ocDNS ∧ Gen.ocDomainSearchList = some V6.ocDomainSearchList ∧
     Gen.ocIAPD = some V6.ocIAPD ∧ Gen.ocRemoteID = some V6.ocRemoteID ∧
     Gen.ocBootfileURL = some V6.ocBootfileURL ∧ Gen.ocBootfileParam = some V6.ocBootfileParam ∧
-    Gen.ocClientLinkLayerAddr = some V6.ocClientLinkLayerAddr := by decide
+    Gen.ocClientLinkLayerAddr = some V6.ocClientLinkLayerAddr ∧
+    Gen.ocIATA = some V6.ocIATA ∧ Gen.ocFQDN = some V6.ocFQDN := by decide
 
 /-- the model's option codes are the codes of the constructors it matches on -/
 theorem fact_codesOfConstructors :
@@ -33,7 +34,9 @@ theorem fact_codesOfConstructors :
     (V6.Opt6.iana [] 0 0 []).code = V6.ocIANA ∧ (V6.Opt6.iapd [] 0 0 []).code = V6.ocIAPD ∧
     (V6.Opt6.oro []).code = V6.ocORO ∧ (V6.Opt6.interfaceID []).code = V6.ocInterfaceID ∧
     (V6.Opt6.remoteID 0 []).code = V6.ocRemoteID ∧ (V6.Opt6.clientLLA 0 []).code = V6.ocClientLinkLayerAddr ∧
-    (V6.Opt6.vendorClass 0 []).code = V6.ocVendorClass ∧ (V6.Opt6.dns []).code = V6.ocDNS := by decide
+    (V6.Opt6.vendorClass 0 []).code = V6.ocVendorClass ∧ (V6.Opt6.dns []).code = V6.ocDNS ∧
+    (V6.Opt6.iata [] []).code = V6.ocIATA ∧ (V6.Opt6.fqdn 0 ⟨none, []⟩).code = V6.ocFQDN ∧
+    (V6.Opt6.domainSearch ⟨none, []⟩).code = V6.ocDomainSearchList := by decide
 
 /-- `relay.Type() != RELAY-FORW`, `sol.Type() != SOLICIT`, `adv.MessageType != ADVERTISE` (op 1 is `!=`) -/
 theorem fact_requiredTypes :
@@ -58,5 +61,45 @@ theorem fact_eui64 :
     Gen.eui64Byte11 = some 255 ∧ Gen.eui64Byte11_op = some 0 ∧
     Gen.eui64Byte12 = some 254 ∧ Gen.eui64Byte12_op = some 0 ∧
     Gen.encapTypeA = u V6.relayForward ∧ Gen.encapTypeA_op = some 1 := by decide
+
+/-- the bodies `V6.update`, `V6.del`, `Msg6.addOption/updateOption` were written
+from: `Options.Add` appends; `Options.Del` copies the options whose code differs
+(`!=`) into a fresh slice; `Options.Update` overwrites the first option whose
+code is equal (`==`) and RETURNS inside the loop, else calls `Add`; the four
+message-level methods only forward -/
+theorem fact_optionListOps :
+    Gen.shape_Options_Add = some ["assign", "call:append"] ∧
+    Gen.shape_Options_Del = some ["define", "call:make", "call:len", "range", "if", "binop:!=", "call:Code",
+      "assign", "call:append", "assign"] ∧
+    Gen.shape_Options_Update = some ["range", "if", "binop:==", "call:Code", "call:Code", "assign", "return",
+      "call:Add"] ∧
+    Gen.shape_Message_AddOption = some ["call:Add"] ∧ Gen.shape_Message_UpdateOption = some ["call:Update"] ∧
+    Gen.shape_RelayMessage_AddOption = some ["call:Add"] ∧
+    Gen.shape_RelayMessage_UpdateOption = some ["call:Update"] := by decide
+
+/-- the bodies the five modifiers `Mod6.fqdn / domainSearchList / ianaAddrs / iata /
+iapd` were written from: the two name modifiers build a label set literal and
+call `UpdateOption` on whatever message kind they get; the three
+identity-association modifiers act on `*Message` only (checked assertion), take
+`One<IA>()`, fall back on an empty literal when it is nil, (`copy` the IAID for
+IA_TA and IA_PD, not for IA_NA,) `Add` every argument to the sub-options and
+call `UpdateOption`; `IATA()` / `IAPD()` assert the type of EVERY option of the
+code without a check -/
+theorem fact_modifierBodies :
+    Gen.shape_WithFQDN = some ["return", "call:UpdateOption", "lit:OptFQDN", "lit:rfc1035label.Labels",
+      "lit:[]string"] ∧
+    Gen.shape_WithDomainSearchList = some ["return", "call:UpdateOption", "call:OptDomainSearchList",
+      "lit:rfc1035label.Labels"] ∧
+    Gen.shape_WithIANA = some ["return", "if", "define,ok", "assert:*Message", "define", "call:OneIANA", "if",
+      "binop:==", "assign", "lit:OptIANA", "range", "call:Add", "call:UpdateOption"] ∧
+    Gen.shape_WithIATA = some ["return", "if", "define,ok", "assert:*Message", "define", "call:OneIATA", "if",
+      "binop:==", "assign", "lit:OptIATA", "call:copy", "range", "call:Add", "call:UpdateOption"] ∧
+    Gen.shape_WithIAPD = some ["return", "if", "define,ok", "assert:*Message", "define", "call:OneIAPD", "if",
+      "binop:==", "assign", "lit:OptIAPD", "call:copy", "range", "call:Add", "call:UpdateOption"] ∧
+    Gen.shape_IATA = some ["define", "call:Get", "range", "assign", "call:append", "assert:*OptIATA", "return"] ∧
+    Gen.shape_IAPD = some ["define", "call:Get", "range", "assign", "call:append", "assert:*OptIAPD", "return"] ∧
+    Gen.shape_OneIATA = some ["define", "call:IATA", "if", "binop:==", "call:len", "return", "return"] ∧
+    Gen.shape_OneIAPD = some ["define", "call:IAPD", "if", "binop:==", "call:len", "return", "return"] := by
+  decide
 
 end Dhcp.Facts.V6Build
